@@ -9,20 +9,27 @@
 
 extern "C" {
 
+// Optional implementations supplied by a monitor program (weak: absent means "no monitor").
+int romea_verif_loop_iter_impl(const char * site, unsigned long iteration) __attribute__((weak));
+void romea_verif_yield_impl(const char * site) __attribute__((weak));
+
+}  // extern "C"
+
 // Called once per iteration of an otherwise unbounded loop; a non-zero return leaves the loop.
-// The weak default never interrupts; a monitor may override it with a strong definition.
-__attribute__((weak)) int romea_verif_loop_iter(const char * /*site*/, unsigned long /*iteration*/)
+// Without a monitor it never interrupts.
+inline int romea_verif_loop_iter(const char * site, unsigned long iteration)
 {
-  return 0;
+  return romea_verif_loop_iter_impl ? romea_verif_loop_iter_impl(site, iteration) : 0;
 }
 
 // Called between two critical sections; a monitor may yield or sleep here to widen the
-// window in which another thread can interleave.  The weak default does nothing.
-__attribute__((weak)) void romea_verif_yield(const char * /*site*/)
+// window in which another thread can interleave.  Without a monitor it does nothing.
+inline void romea_verif_yield(const char * site)
 {
+  if (romea_verif_yield_impl) {
+    romea_verif_yield_impl(site);
+  }
 }
-
-}  // extern "C"
 
 #endif  // ROMEA_CORE_COMMON_VERIF
 
